@@ -228,24 +228,32 @@ func (ck *Checker) callsOf(sc *Scenario) []*Call {
 
 // explore runs scenarios in parallel and returns the reportable violations.
 func (ck *Checker) explore(scs []*Scenario) ([]found, error) {
+	return ck.exploreLazy(len(scs), func(i int) *Scenario { return scs[i] })
+}
+
+// exploreLazy is explore over scenarios produced on demand (memory stays
+// bounded when scenarios are large, as C18's long histories are).
+func (ck *Checker) exploreLazy(n int, at func(i int) *Scenario) ([]found, error) {
 	var mu sync.Mutex
 	var fs []found
 	var firstErr error
 	var wg sync.WaitGroup
 	gate := make(chan struct{}, ck.ex.par*2)
-	for _, sc := range scs {
+	for i := 0; i < n; i++ {
+		gate <- struct{}{} // before generating: at most 2*par scenarios exist at a time
+		sc := at(i)
 		mu.Lock()
 		stop := firstErr != nil
 		mu.Unlock()
 		if stop {
+			<-gate
 			break
 		}
 		if ck.budget > 0 && time.Since(ck.start) > ck.budget {
+			<-gate
 			break
 		}
-		sc := sc
 		wg.Add(1)
-		gate <- struct{}{}
 		go func() {
 			defer wg.Done()
 			defer func() { <-gate }()
